@@ -29,6 +29,7 @@ func pxAlphabet() (all []Spec, sub []Spec) {
 		{Kind: KRetry, MaxRetries: 2, Abort: []Cond{{K: "errs", E: E2}}},
 		{Kind: KRetry, MaxRetries: 2, Handle: []Cond{{K: "result", V: 0}}, Delay: 10},
 		{Kind: KRetry, MaxRetries: 1, Handle: []Cond{{K: "result", V: 0}}, ReturnLast: true},
+		{Kind: KRetry, MaxRetries: 1, Handle: []Cond{{K: "errs", E: E1}, {K: "result", V: 0}}}, // an error it does not name, carrying the handled value, passes through
 	}
 	breaker := []Spec{
 		{Kind: KBreaker, FT: 1, FC: 1, BDelay: time.Hour},
@@ -284,7 +285,7 @@ func init() {
 	register(&CheckDef{
 		Property:  "C01",
 		Technique: "exhaustive enumeration of programs (policy stack x configuration x outcome script x history), each executed on the real code under the virtual runtime with a transparent probe between every two layers, and checked layer by layer against the documented behaviour of each policy",
-		Rule: "a program = a stack of 1-3 (thorough 4) policy configurations from a 27-element alphabet covering all eight policies (with repetition) x an outcome script over {ok(1), ok(0), err(E1), err(E2)} of up to 2 outcomes (plus, for stacks of one or two policies, the single outcomes timeout.ErrExceeded and ErrOpen returned by the function itself) (thorough: 3 for stacks of one or two policies), with slow first invocations when a timeout or hedge is present, " +
+		Rule: "a program = a stack of 1-3 (thorough 4) policy configurations from a 28-element alphabet covering all eight policies (with repetition) x an outcome script over {ok(1), ok(0), err(E1), err(E2)} of up to 2 outcomes (plus, for stacks of one or two policies, the single outcomes timeout.ErrExceeded and ErrOpen returned by the function itself) (thorough: 3 for stacks of one or two policies), with slow first invocations when a timeout or hedge is present, " +
 			"x a history of 2-3 executions on the same instances, sync and async; stacks with timeout/hedge/async are explored over all schedules within deviation bound 1; distinct = distinct observation logs",
 		Assume: []string{"probes are transparent user-defined policies (the library's own extension interface)", "concurrent applications of one retry layer under a hedge are outside the retry contract (C14)",
 			"breakers in the alphabet are count based (time-windowed ones are covered by C03)"},
@@ -302,6 +303,7 @@ func init() {
 			us := append(pxUnits("C16", tier, "layers,events", 1), c16ConcurrentUnits(tier)...)
 			us = append(us, chunkUnits("C16", c16AsyncScenarios(tier), 10)...)
 			us = append(us, chunkUnits("C16", c16StoryScenarios(tier), 4)...)
+			us = append(us, chunkUnits("C16", c16ListenerSubsetScenarios(tier), 32)...)
 			return append(us, chunkUnits("C16", hedgeTimingScenarios("C16/hedge-timing", tier, "events"), 40)...)
 		},
 	})
